@@ -13,6 +13,7 @@ Trusted here: scaling.quantise_scale / reduced_quantise_scale (C09) supply the c
 shift) pairs from the double scale; mlw_codec.decode (C07) turns a weight section back into integers."""
 import struct
 
+import c08_pipe
 import common
 from common import Check, main_wrapper
 
@@ -41,6 +42,17 @@ def main():
 
     rng = ck.rng
     T = ck.thorough
+    # a replay that names a generated network of section 5 (sc_fixed*, sc_rand*, wnet*): the network is rebuilt from (name, seed)
+    # further down, compiled with the recorded options and put through all pipeline checks; the stub-level sections shrink
+    net_replay = []
+    if ck.replay_arg:
+        import json as _json
+        import os as _os
+        _rp = _json.load(open(ck.replay_arg if _os.path.isabs(ck.replay_arg) else _os.path.join(common.VERIF, ck.replay_arg)))
+        _d = _rp.get("replay", {})
+        if not _d.get("stub_case") and str(_d.get("network", "")).startswith(("sc_fixed", "sc_rand", "wnet")) and _d.get("options"):
+            net_replay.append((_d, int(_rp.get("seed", 0))))
+            print("replaying:", _rp.get("what", "")[:300])
     accs = list(Accelerator)
     archs = {}
 
@@ -53,11 +65,13 @@ def main():
 
     def wcc_of(weight_tens, op, block_config, depth_offsets, kernel):
         """the implementation's own cache key for a request (signature with / without the IFM bit depth)"""
-        a = (weight_tens, op.type.npu_block_type, block_config.ofm_block.depth, hash(str(depth_offsets)), kernel.dilation)
-        try:
-            return wc.create_weight_compression_config(*a, op.inputs[0].dtype.size_in_bits())
-        except TypeError:
-            return wc.create_weight_compression_config(*a)
+        a = [weight_tens, op.type.npu_block_type, block_config.ofm_block.depth, hash(str(depth_offsets)), kernel.dilation]
+        fields = wc.WeightCompressionConfig._fields
+        if "ifm_bitdepth" in fields:
+            a.append(op.inputs[0].dtype.size_in_bits())
+        if "flipped" in fields:
+            a.append(op.type == Op.Conv2DBackpropInputSwitchedBias)      # proposed repair /verif_patches/C08-21
+        return wc.create_weight_compression_config(*a)
 
     # ------------------------------------------------------------------------------------------
     # 1. encode_bias: model correspondence + Spec decoder on the real bytes
@@ -70,7 +84,7 @@ def main():
             for s in edge_s:
                 for h in edge_h:
                     out.append((b, s, h))
-        for _ in range(20000 if T else 3000):
+        for _ in range((20000 if T else 3000) if not net_replay else 5):
             r = rng.random()
             b = rng.randrange(-(1 << 39), 1 << 39) if r < 0.8 else rng.randrange(-(1 << 41), 1 << 41)
             if r > 0.97:
@@ -423,7 +437,7 @@ def main():
         return "wl_spec " + " ".join(map(str, toks))
 
     # ---- replay of one stub case (./check C08 --replay replays/C08-<seed>-<n>.json) -------------
-    if ck.replay_arg:
+    if ck.replay_arg and not net_replay:
         import json
         import os
         path = ck.replay_arg if os.path.isabs(ck.replay_arg) else os.path.join(common.VERIF, ck.replay_arg)
@@ -431,7 +445,7 @@ def main():
         d = rp.get("replay", {})
         print("replaying:", rp.get("what", "")[:300])
         if not d.get("stub_case"):
-            print("this replay describes a compiled network / request sequence / correspondence; re-run the fixed scenarios with ./check C08 quick "
+            print("this replay describes a request sequence / correspondence / fixed scenario; re-run the fixed scenarios with ./check C08 quick "
                   "(they are rebuilt deterministically: shared_w_int8_int16, two_means_9x2_3x6, one_mean_u65_after_u55, single_buffer_560_vs_2864)")
             print(json.dumps(d, indent=1)[:3000])
             raise SystemExit(0)
@@ -456,7 +470,7 @@ def main():
         raise SystemExit(0 if verdict == "ok" else 1)
 
     # ---- generate stub cases ----------------------------------------------------------------
-    n_cases = 25000 if T else 1500
+    n_cases = (25000 if T else 1500) if not net_replay else 12
     cases = []
     # the recorded witness first (DESIGN.md section 8 #11), then its neighbours
     wit = {"orig": None, "acc": Accelerator.Ethos_U65_512, "kind": "conv", "ifm": "int8", "shape": (1, 1, 4, 8), "dil": 1, "wdt": "int8",
@@ -742,7 +756,7 @@ def main():
     seq_same_reqs, seq_meta = [], []
     cache_model_reqs, cache_real = [], []
     scale_only = []      # (args, scale tensor) of weights-only hits
-    n_worlds = 800 if T else 60
+    n_worlds = (800 if T else 60) if not net_replay else 1
     for wi in range(n_worlds):
         cache.clear()
         base = gen_case({"acc": rng.choice([Accelerator.Ethos_U65_512, Accelerator.Ethos_U55_128, Accelerator.Ethos_U65_256])})
@@ -856,6 +870,40 @@ def main():
             ck.violation("correspondence cacheOutcomes vs the look-up at the top of encode_weight_and_scale_tensor broken",
                          {"correspondence": "wl_cache", "first_difference_at": k, "model": mo[max(0, k - 2):k + 3], "implementation": cache_real[max(0, k - 2):k + 3],
                           "request": cache_model_reqs[k]}, found_input=False)
+    # the transpose-convolution flip: ONE weight tensor object requested by a convolution stub and by a transpose-convolution
+    # stub, every other key field equal.  Lean answers whether the model key (built from the generated field list of
+    # WeightCompressionConfig) separates the two; the real keys must agree with that; the real answers go through CacheTransparent.
+    cF = gen_case({"acc": Accelerator.Ethos_U55_128})
+    cF.update(kind="conv", ifm="int8", wdt="int8", shape=(3, 2, 8, 16), dil=1, wzp=0, wscales=rand_scale32(), bias_dt="int32",
+              wvals=np.random.RandomState(11).randint(-127, 128, (3, 2, 8, 16)).astype(np.int8), bias=list(range(-8, 8)), bd=16,
+              offsets=[0, 16], okind="full", away=False, explicit=None, orig=None, mal=None)
+    archF, opF, wF, bF, kF, bcF = build(cF)
+    _a, opT, _w, bT, kT, bcT = build(dict(cF, kind="tconv"))
+    opT.set_input_tensor(wF, 1)
+    argsF, argsT = (archF, opF, wF, bF, kF, bcF, [0, 16]), (archF, opT, wF, bT, kT, bcT, [0, 16])
+    sep = ck.model(["wl_keysep %s %s" % (req_tokens(*argsF), req_tokens(*argsT))])[0]
+    real_equal = wcc_of(wF, opF, bcF, [0, 16], kF) == wcc_of(wF, opT, bcT, [0, 16], kT)
+    ck.count("flip_key_" + sep)
+    if (sep == "collide") != real_equal:
+        ck.violation(f"correspondence wccKey vs create_weight_compression_config broken on the transpose-convolution flip: model says {sep}, real keys equal={real_equal}",
+                     {"correspondence": "wl_keysep", "model": sep, "implementation_keys_equal": real_equal}, found_input=False)
+    cache.clear()
+    wc.encode_weight_and_scale_tensor(*argsF)
+    ansT = wc.encode_weight_and_scale_tensor(*argsT)
+    keepF = dict(cache)
+    cache.clear()
+    freshT = wc.encode_weight_and_scale_tensor(*argsT)
+    cache.clear()
+    cache.update(keepF)
+    tv = ck.model([c08_pipe.transparent_line(ansT[0], ansT[1], freshT[0])])[0]
+    if tv != "ok":
+        ck.violation(f"a transpose convolution requesting the filter a convolution has just encoded (same tensor, block depth 16, depth slices [0,16]) is answered with "
+                     f"the convolution's stream: {tv} (Lean: the cache keys {sep})",
+                     {"stub_scenario": "conv then tconv on one weight tensor [3,2,8,16]", "verdict": tv, "keys": sep,
+                      "replay": "testutil-style stubs: Op.Conv2DBias and Op.Conv2DBackpropInputSwitchedBias sharing one weight tensor object, "
+                                "encode_weight_and_scale_tensor(arch(ethos-u55-128), op, w, b, Kernel(2,3), block depth 16, [0,16]) for both in turn"},
+                     key="cache-key-omits-transpose-conv-flip" if sep == "collide" else None)
+    cache.clear()
     # scale-only tensors (weights-only hits): model correspondence with do_weights = False + Spec on the real tensor
     so_prep = ck.model([x[2] for x in scale_only])
     so_enc, so_real, so_spec = [], [], []
@@ -906,20 +954,49 @@ def main():
     captured = []
     orig_enc = wc.encode_weight_and_scale_tensor
 
+    cap_seen = set()
+    fillers = {}         # cache key -> (operator, weight tensor) of the request that filled the entry
+
+    def fresh_orig(args):
+        """the same request with the cache bypassed (emptied and restored)"""
+        keep = dict(cache)
+        cache.clear()
+        try:
+            return orig_enc(*args)
+        finally:
+            cache.clear()
+            cache.update(keep)
+
     def cap(arch, op, weight_tens, scale_tens, kernel, block_config, depth_offsets):
         offs = [int(x) for x in depth_offsets]
         wcc = wcc_of(weight_tens, op, block_config, depth_offsets, kernel)
         pre = cache.get(wcc)
-        r = orig_enc(arch, op, weight_tens, scale_tens, kernel, block_config, depth_offsets)
-        captured.append(((arch, op, weight_tens, scale_tens, kernel, block_config, depth_offsets), offs, r, pre is not None, wcc))
+        args = (arch, op, weight_tens, scale_tens, kernel, block_config, depth_offsets)
+        r = orig_enc(*args)
+        tl = None
+        ident = (id(r[0]), id(r[1]), tuple(offs), id(op))
+        if ident not in cap_seen:
+            # cache transparency, at the moment of the call: the same request with the cache bypassed
+            cap_seen.add(ident)
+            try:
+                fw, _fs = fresh_orig(args)
+                tl = c08_pipe.transparent_line(r[0], r[1], fw)
+            except Exception as e:  # noqa: B902
+                tl = "raise " + errkind(e)
+        filler = fillers.get(wcc) if pre is not None else None
+        if pre is None:
+            fillers[wcc] = (op, weight_tens)
+        captured.append((args, offs, r, pre is not None, wcc, tl, filler))
         return r
 
-    def compile_and_check(name, data, opts, fresh_cache=True):
-        """compile; Spec on every distinct tensor returned to the scheduler; fresh-vs-cached on every hit;
-        scheduler buffers vs DMA sizes"""
+    def compile_and_check(name, data, opts, fresh_cache=True, net=None):
+        """compile; cache transparency of every answer; Spec on every distinct tensor returned to the scheduler;
+        scheduler buffers vs DMA sizes; final schedule; emitted operations (API level and register level)"""
         if fresh_cache:
             cache.clear()
         captured.clear()
+        cap_seen.clear()
+        fillers.clear()
         wc.encode_weight_and_scale_tensor = cap
         try:
             res = pipeline.compile_net(data, opts, name=name, reset=False)      # addresses are needed below; reset at the end
@@ -930,14 +1007,69 @@ def main():
             pipeline.reset_process_state()
             return res
         try:
-            return _check_compiled(name, data, opts, res)
+            return _check_compiled(name, data, opts, res, net)
         finally:
             pipeline.reset_process_state()
 
-    def _check_compiled(name, data, opts, res):
+    def stale_key(args, filler):
+        """key of a recorded finding when a non-transparent answer has one of the two recorded causes (the verdict is
+        Lean's; this only names the cause): the entry was filled by an operator that uses a differently laid out
+        copy of the same filter"""
+        if filler is None:
+            return None
+        fop, fw = filler
+        op, w = args[1], args[2]
+        if fw is w or fw.value_id != w.value_id or fw.values is None or w.values is None:
+            return None
+        flip_a, flip_b = op.type == Op.Conv2DBackpropInputSwitchedBias, fop.type == Op.Conv2DBackpropInputSwitchedBias
+        if flip_a != flip_b and fw.values.shape == w.values.shape and np.array_equal(fw.values, w.values):
+            return "cache-key-omits-transpose-conv-flip"
+        if c08_pipe.is_dilated_copy(fw.values, w.values) or c08_pipe.is_dilated_copy(w.values, fw.values):
+            return "dilated-kernel-keeps-value-id"
+        return None
+
+    def _check_compiled(name, data, opts, res, net=None):
         seen = set()
         p_prep, p_items = [], []
-        for args, offs, r, hit, wcc in captured:
+        # ---- cache transparency of every answer (judged on what was recorded at the moment of the call) ----
+        t_lines, t_meta = [], []
+        for args, offs, r, hit, wcc, tl, filler in captured:
+            if tl is None:
+                continue
+            ck.count("transparency_requests")
+            ck.count("transparency_" + ("hit" if hit and r[1] is None else "hit-weights" if hit else "miss"))
+            if tl.startswith("raise "):
+                ck.violation(f"{name}: encode_weight_and_scale_tensor answered the request of operator {args[1].name} (cache hit={hit}) but the same request "
+                             f"raises {tl[6:]} when the cache is bypassed", {"network": name, "options": opts, "op": args[1].name,
+                             "replay": "harness/netgen network '%s' compiled with %s" % (name, " ".join(opts))}, key=stale_key(args, filler))
+                continue
+            t_lines.append(tl)
+            t_meta.append((args, offs, r, hit, filler))
+        t_out = ck.model(t_lines)
+        stale_ids = set()
+        stale_keys = {}
+        t_reported = set()
+        for o, (args, offs, r, hit, filler) in zip(t_out, t_meta):
+            if o == "ok":
+                ck.count("transparency_ok")
+                continue
+            ck.count("transparency_fail")
+            stale_ids.add(id(r[0]) * 1000003 + id(args[1]))
+            stale_keys[id(r[0]) * 1000003 + id(args[1])] = stale_key(args, filler)
+            op, w = args[1], args[2]
+            if (op.name, o) in t_reported:
+                continue            # the scheduler repeats a request with other block configurations: one report per operator and verdict
+            t_reported.add((op.name, o))
+            fdesc = "" if filler is None else f"; the cache entry was filled by operator {filler[0].name} ({filler[0].type.name}, filter {list(filler[1].values.shape)})"
+            ck.violation(f"{name}: the answer of encode_weight_and_scale_tensor for operator {op.name} ({op.type.name}, filter {list(w.values.shape)}, "
+                         f"kernel {args[4].height}x{args[4].width} dilation {args[4].dilation.x}, depth slices {offs}, cache hit={hit}) is not what the "
+                         f"same request returns with the cache bypassed: {o}{fdesc}",
+                         {"network": name, "options": opts, "op": op.name, "depth_offsets": offs, "verdict": o,
+                          "net": net.desc if net is not None else None,
+                          "replay": "harness/netgen network '%s' compiled with %s; wrap weight_compressor.encode_weight_and_scale_tensor and compare "
+                                    "each answer with the answer obtained after CompressedWeightCache.cache.clear()" % (name, " ".join(opts))},
+                         key=stale_key(args, filler))
+        for args, offs, r, hit, wcc, _tl, _filler in captured:
             arch, op, w, b, kernel, bc, _ = args
             ident = (id(r[0]), id(r[1]), tuple(offs), id(op))
             if ident in seen:
@@ -955,18 +1087,6 @@ def main():
         slines, smeta, samel, samemeta = [], [], [], []
         prep_mismatch = []
 
-        def wsecs(t):
-            return ",".join(hexs(bytes(t.buffer[x[2] + x[4]: x[2] + x[4] + x[5]])) + f".{x[0]}.{x[1]}" for x in ranges_of(t)) + "|" + t.hw_traversal.name
-        stale_ids = set()
-        hits = [it_ for it_ in p_items if it_[3]]
-        for (args, offs, r, hit, wcc) in hits:
-            fw, fs = fresh_of(args)
-            samel.append(f"wl_same {wsecs(r[0])} {wsecs(fw)}")
-            samemeta.append((args[1], args[2], offs, args[0]))
-        sa = ck.model(samel)
-        for o, it_ in zip(sa, hits):
-            if o != "1":
-                stale_ids.add(id(it_[2][0]) * 1000003 + id(it_[0][1]))
         for (args, offs, r, hit, wcc), po, pl in zip(p_items, pouts, p_prep):
             arch, op, w, b, kernel, bc, _ = args
             rp = real_prep(arch, op, b)
@@ -996,14 +1116,6 @@ def main():
                 ck.violation(f"Lean Spec rejects a tensor of a compiled network: {o[:160]} (op {opn}, depth slices {offs}, {what}, cache hit={hit})",
                              {"network": name, "options": opts, "op": opn, "depth_offsets": offs, "verdict": o[:1500],
                               "replay": "harness/netgen network '%s' compiled with %s" % (name, " ".join(opts))})
-        for o, (op, w, offs, arch) in zip(sa, samemeta):
-            ck.count("pipe_cache_hits_compared")
-            if o != "1":
-                ck.count("pipe_cache_stale")
-                ck.violation(f"{name}: cached weight encoding returned for operator {op.name} (IFM {op.inputs[0].dtype}, weights {list(w.values.shape)}, "
-                             f"{arch.accelerator_config.value}) differs from a fresh encoding",
-                             {"network": name, "options": opts, "op": op.name, "ifm_dtype": str(op.inputs[0].dtype), "weights_shape": list(w.values.shape),
-                              "replay": "compile the network built by check_C08.%s with %s" % (name, " ".join(opts))})
         # scheduler buffers: slice i is DMA'd into buffer i mod n
         blines, bmeta = [], []
         for st_ in res.streams:
@@ -1079,6 +1191,7 @@ def main():
                               "replay": "compile network '%s' with %s; inspect sg.schedule.cost_map[op].npu_weights_tensor.encoded_ranges vs ofm_depth_slices" % (name, " ".join(opts))})
         # (B) every emitted NPU operation with weights: channel cover of its stripe + its address ranges
         tlines, tmeta = [], []
+        mlines, mreal, mmeta = [], [], []
         for st_ in res.streams:
             if not st_.npu_ops or st_.op_to_cmd is None:
                 continue
@@ -1112,7 +1225,27 @@ def main():
                 tlines.append(" ".join(tl.split()))
                 tmeta.append((pop.name, c0, c1, buffered, sep, sorted({r[1] for r in wr})))
                 ck.count("emitted_ops_with_weights")
+                # model correspondence of create_weights on the emitted operation (all three shapes: in place, buffered, stand-alone scales)
+                mlines.append("wl_addr %d %d %s %d %d %d %d %d %d %s %d" % (
+                    st_.arch.ncores, len(wr), fmt_ranges(wr), int(src.address or 0), int(buffered), int(wtens.address or 0) if buffered else 0,
+                    int(sep), int(cmd.scale_tensor.address or 0) if sep else 0, len(sr), fmt_ranges(sr), c0))
+                mreal.append(f"w {addr_str(nop.weights)} b {addr_str(nop.biases)}")
+                mmeta.append((pop.name, c0, c1, buffered, sep))
+                if sep:
+                    ck.count("emitted_ops_standalone_scales")
+                    if len(sr) > 1:
+                        ck.count("emitted_ops_standalone_scales_several_ranges_%dcore" % st_.arch.ncores)
+                    if buffered:
+                        ck.count("emitted_ops_standalone_scales_buffered_weights")
+        mo_ = ck.model([" ".join(x.split()) for x in mlines])
+        mdis = [(o, r, m) for o, r, m in zip(mo_, mreal, mmeta) if o.split(" dma")[0] != r]
+        ck.count("emitted_ops_create_weights_model_compared", len(mlines))
         to = ck.model(tlines)
+        if mdis and all(o == "ok" for o in to):
+            o, r, m = mdis[0]
+            ck.violation(f"correspondence createWeights vs high_level_command_to_npu_op.create_weights broken on {len(mdis)} emitted operations of {name} "
+                         f"(first: {m[0]}, channels [{m[1]}, {m[2]}), buffered={m[3]}, stand-alone scales={m[4]})",
+                         {"correspondence": "wl_addr", "network": name, "options": opts, "model": o[:600], "implementation": r[:600]}, found_input=False)
         for o, m, tl in zip(to, tmeta, tlines):
             if o != "ok":
                 ck.count("emitted_op_fail")
@@ -1120,9 +1253,150 @@ def main():
                              f"are not the recorded sections: {o} (buffered={m[3]}, stand-alone scales={m[4]}, range start channels {m[5]})",
                              {"network": name, "options": opts, "op": m[0], "channels": [m[1], m[2]], "verdict": o, "request": tl[:2500],
                               "replay": "compile network '%s' with %s; compare npu_op.weights/biases and the stripe's weight_box with encoded_ranges" % (name, " ".join(opts))})
+        # (C) register level, on the OUTPUT FILE: the command words are decoded by Lean, weight DMAs are replayed on the file's
+        # constants tensor, and the bytes the SCALE / WEIGHT registers of every operation designate must be that operation's own:
+        # one record per channel of the stripe the core owns with the bias of the operator's own bias tensor and the
+        # (multiplier, shift) the Lean models (C09 quantiser + the selection of _prepare_scale_and_bias) compute from the
+        # SOURCE operator's quantisation; a weight stream that decodes to the operator's own filter for those channels
+        if res.out_model is not None:
+            import fbwalk
+            omodel = fbwalk.parse(res.out_model)
+            matches = c08_pipe.match_custom_ops(pipeline, omodel, res.streams)
+            srcs = c08_pipe.source_ops(net) if net is not None else {}
+            jobs, q_lines = [], []
+            for art, hit in zip(res.streams, matches):
+                if not art.npu_ops or art.op_to_cmd is None:
+                    continue
+                if hit is None:
+                    ck.count("emitted_stream_not_found_in_output_file")
+                    continue
+                items = []
+                for k, nop in enumerate(art.npu_ops):
+                    cmd = art.op_to_cmd.get(nop)
+                    if not isinstance(cmd, NpuStripe) or cmd.weight_tensor is None or cmd.weight_box is None:
+                        continue
+                    pop = cmd.ps.primary_op
+                    if pop.weights is None or pop.weights.values is None or pop.bias is None:
+                        continue
+                    src = None
+                    if pop.forced_input_quantization is None and pop.forced_output_quantization is None and pop.explicit_scaling is None:
+                        src = srcs.get(pop.ofm.name) or srcs.get(pop.name)
+                    ck.count("emitted_expected_from_" + ("source_file" if src is not None else "optimised_graph"))
+                    items.append((k, cmd, src))
+                    q_lines.append(c08_pipe.prepq_line_source(src) if src is not None else c08_pipe.prepq_line_graph(wc, pop, pop.bias))
+                jobs.append((art, hit, items))
+            q_out = iter(ck.model(q_lines))
+            e_lines, e_meta = [], []
+            for art, hit, items in jobs:
+                infos, names = [], []
+                for k, cmd, src in items:
+                    po = next(q_out)
+                    pop = cmd.ps.primary_op
+                    if not po.startswith("ok"):
+                        ck.count("emitted_scales_unmodelled_" + po.split()[0])
+                        recs, judge_recs = [], False
+                    else:
+                        recs, judge_recs = parse_qs(po), True
+                    biases = [int(x) for x in (np.asarray(src[3].data).reshape(-1) if src is not None else pop.bias.values)]
+                    if judge_recs:
+                        infos.append(c08_pipe.op_info(mlw_codec, wc, k, cmd, art.arch.ncores, recs, biases))
+                        wsrc = cmd.weight_tensor.src_tensor if cmd.weight_tensor.src_tensor is not None else cmd.weight_tensor
+                        names.append((k, pop.name, pop.type.name, int(cmd.weight_box.start_coord[-1]), int(cmd.weight_box.end_coord[-1]),
+                                      stale_keys.get(id(wsrc) * 1000003 + id(pop), "-")))
+                e_lines.append(c08_pipe.emitted_line(art.arch, hit[1], hit[2], infos))
+                e_meta.append(names)
+            e_out = ck.model(e_lines)
+            for o, names in zip(e_out, e_meta):
+                if o.startswith("ok"):
+                    ck.count("register_level_ops_judged", int(o.split()[1]))
+                    continue
+                ck.count("register_level_fail")
+                bad = sorted({int(t.split(":")[0][2:]) for t in o.split()[1:] if t.startswith("op") and t.split(":")[0][2:].isdigit()})
+                who = [n for n in names if n[0] in bad][:4]
+                # every failing operation holds a tensor whose answer was already found non-transparent for a recorded cause,
+                # and only its weight stream is wrong: same finding
+                kk = {n[5] for n in names if n[0] in bad}
+                only_weights = all(":weights-core" in t or ":weight-bytes" in t for t in o.split()[1:])
+                rkey = kk.pop() if len(kk) == 1 and only_weights and len(bad) > 0 and len([n for n in names if n[0] in bad]) == len(bad) else None
+                rkey = None if rkey == "-" else rkey
+                ck.violation(f"{name}: the bytes designated by the SCALE/WEIGHT registers of the emitted stream are not the operation's own constants: {o[:300]} "
+                             f"(operations (index, name, type, c0, c1): {who})",
+                             {"network": name, "options": opts, "verdict": o[:2000], "operations": who, "net": net.desc if net is not None else None,
+                              "replay": "compile network '%s' with %s; decode the command stream of the output file and read the ranges named by "
+                                        "NPU_SET_SCALE_BASE/LENGTH (and SCALE1, WEIGHT, WEIGHT1) from the constants tensor / the weight DMA destinations" % (name, " ".join(opts))},
+                             key=rkey)
         if prep_mismatch and not any(v[2] for v in ck.violations):
             ck.violation("correspondence prepareScales vs _prepare_scale_and_bias broken on a compiled network", prep_mismatch[0], found_input=False)
         return res
+
+    # ---- (0) the shared-constants family first: one filter and/or bias tensor of the file used by 2-4 operators that differ in one respect ----
+    def shared_consts_sweep():
+        ini = common.REPO + "/ethosu/config_files/Arm/vela.ini"
+        u65 = ["--config", ini, "--system-config", "Ethos_U65_High_End", "--memory-mode", "Dedicated_Sram"]
+        combos = [("ethos-u55-128", "Performance", 0), ("ethos-u65-512", "Performance", 0), ("ethos-u55-128", "Size", 1), ("ethos-u65-512", "Size", 1),
+                  ("ethos-u55-128", "Performance", 2), ("ethos-u65-512", "Performance", 2)]
+        fixed = [  # deterministic: the configurations of the recorded seeded changes and findings
+            dict(axis="stride_first", n_ops=2, kernel=(2, 2), oc=16, ic=2, hw=(8, 8), dtype="int8", per_channel=False, extra_axis="bias"),
+            dict(axis="stride_first", n_ops=3, kernel=(3, 3), oc=16, ic=3, hw=(9, 12), dtype="int8"),
+            dict(axis="stride_first", n_ops=2, kernel=(1, 1), oc=24, ic=4, hw=(8, 12), dtype="int8"),
+            dict(axis="bias", n_ops=2, kernel=(3, 3), oc=32, ic=16, hw=(8, 8), dtype="int8", per_channel=False),
+            dict(axis="bias", n_ops=3, kernel=(3, 3), oc=96, ic=32, hw=(8, 8), dtype="int8"),
+            dict(axis="dilation", n_ops=2, kernel=(2, 2), oc=24, ic=32, hw=(12, 12), dtype="int8"),
+            dict(axis="tconv", n_ops=2, kernel=(3, 3), oc=40, ic=16, hw=(6, 6), dtype="int8", per_channel=False),
+            dict(axis="ofm_scale", n_ops=2, kernel=(3, 3), oc=128, ic=32, hw=(8, 8), dtype="int8"),
+            dict(axis="ifm_scale", n_ops=3, kernel=(1, 1), oc=64, ic=64, hw=(6, 6), dtype="int8"),
+            dict(axis="ifm_size", n_ops=3, kernel=(3, 3), oc=48, ic=16, hw=(8, 8), dtype="int8"),
+            dict(axis="stride_ge4", n_ops=3, kernel=(2, 2), oc=16, ic=4, hw=(8, 24), dtype="int8"),
+            dict(axis="stride", n_ops=3, kernel=(3, 3), oc=32, ic=16, hw=(12, 12), dtype="int8"),
+            dict(axis="ifm_bits", n_ops=2, kernel=(3, 3), oc=32, ic=16, hw=(8, 8)),
+            dict(axis="same", n_ops=3, kernel=(3, 3), oc=80, ic=32, hw=(8, 8), dtype="int8"),
+        ]
+        nets = []
+        for j, kw in enumerate(fixed):
+            nets.append((f"sc_fixed{j}_{kw['axis']}", _random.Random(1000 + j), kw, j))
+        n_rand = 120 if T else 10
+        for j in range(n_rand):
+            r = _random.Random(ck.seed * 104729 + j)
+            nets.append((f"sc_rand{j}", r, {}, j))
+        if net_replay:
+            d_, seed_ = net_replay[0]
+            nm = d_["network"]
+            if not nm.startswith("sc_"):
+                return
+            j = int(nm.split("_")[1][5:] if nm.startswith("sc_fixed") else nm.split("_")[1][4:])
+            kw = fixed[j] if nm.startswith("sc_fixed") else {}
+            r = _random.Random(1000 + j) if kw else _random.Random(seed_ * 104729 + j)
+            net = netgen.shared_consts_net(r, j, **kw)
+            print("network:", net.desc[-1], "options:", " ".join(d_["options"]))
+            ck.known_hits.clear()       # only what the replayed network shows counts
+            compile_and_check(nm, netgen.serialize(net), list(d_["options"]), net=net)
+            return
+        for nm, r, kw, j in nets:
+            net = netgen.shared_consts_net(r, j, **kw)
+            data = netgen.serialize(net)
+            wbytes = sum(int(np.prod(t.shape)) for t in net.tensors if t.data is not None)
+            if kw:      # both accelerators; quick: the optimisation target alternates, thorough: all four
+                todo = combos[:4] if T else ([combos[0], combos[3]] if j % 2 == 0 else [combos[2], combos[1]])
+            else:
+                todo = [combos[j % len(combos)]]
+            for acc, optm, variant in todo:
+                opts = ["--accelerator-config", acc, "--optimise", optm]
+                if variant or wbytes > 20000:
+                    # weights do not fit the fast storage: depth slices and weight buffering
+                    opts += ["--arena-cache-size", str(max(6000, wbytes // (3 if variant != 2 else 2)))]
+                if "u65" in acc and (j + variant) % 2 == 0:
+                    opts += u65
+                ck.count("shared_consts_nets")
+                ck.count("shared_consts_axis_" + net.desc[-1].split("axis=")[1].split()[0])
+                compile_and_check(nm + "_" + acc[6:] + "_" + optm[:4], data, opts, net=net)
+
+    shared_consts_sweep()
+    if net_replay and net_replay[0][0]["network"].startswith("sc_"):
+        for w_, p_, _f in ck.violations:
+            print("VIOLATION (replayed):", w_[:400])
+        for k_, w_ in ck.known_hits.items():
+            print("KNOWN-FINDING (replayed):", k_)
+        raise SystemExit(1 if (ck.violations or ck.known_hits) else 0)
 
     def conv_pair_net():
         r = _random.Random(1)
@@ -1169,8 +1443,13 @@ def main():
     compile_and_check("single_buffer_560_vs_2864", overflow_net(), ["--accelerator-config", "ethos-u55-64", "--arena-cache-size", "4000", "--optimise", "Performance"])
     # (e) random weight-heavy networks: scheduler-produced depth slices, incl. two cores
     n_nets = 700 if T else 45
-    for it in range(n_nets):
-        r = _random.Random(ck.seed * 7919 + it)
+    wnet_replay = int(net_replay[0][0]["network"][4:]) if net_replay else None
+    if net_replay:
+        ck.known_hits.clear()
+    for it in range(n_nets if wnet_replay is None else wnet_replay + 1):
+        if wnet_replay is not None and it != wnet_replay:
+            continue
+        r = _random.Random((ck.seed if wnet_replay is None else net_replay[0][1]) * 7919 + it)
         b = netgen.B(r, f"wnet{it}", r.choice(["int8", "int8", "uint8", "int16"]))
         h = r.choice([4, 8, 12])
         pointwise = r.random() < 0.2       # 1x1 feature map: 1x1 convolutions become FullyConnected (type != source type)
@@ -1209,6 +1488,12 @@ def main():
             ini = common.REPO + "/ethosu/config_files/Arm/vela.ini"
             opts += ["--config", ini, "--system-config", "Ethos_U65_High_End", "--memory-mode", r.choice(["Dedicated_Sram", "Shared_Sram"])]
         compile_and_check(f"wnet{it}", data, opts)
+    if net_replay:
+        for w_, p_, _f in ck.violations:
+            print("VIOLATION (replayed):", w_[:400])
+        for k_, w_ in ck.known_hits.items():
+            print("KNOWN-FINDING (replayed):", k_)
+        raise SystemExit(1 if (ck.violations or ck.known_hits) else 0)
 
     cache.clear()
     nontrivial = len({(i, tuple(c["offsets"]), c["acc"]) for i, c in enumerate(cases) if len(c["offsets"]) > 2 or arch_of(c["acc"]).ncores == 2}) \
@@ -1216,7 +1501,8 @@ def main():
     ck.finish({
         "evaluations": len(breqs) + len(rt_lines) + len(prep_reqs) + len(lines) + len(spec_reqs) + len(addr_reqs) + len(addr_spec) + len(addr_match) + len(seq_same_reqs)
         + ck.counters.get("pipe_requests", 0) + ck.counters.get("pipe_buffered_ops", 0) + ck.counters.get("final_costs", 0)
-        + ck.counters.get("emitted_ops_with_weights", 0) + ck.counters.get("emitted_weight_dmas", 0),
+        + ck.counters.get("emitted_ops_with_weights", 0) + ck.counters.get("emitted_weight_dmas", 0)
+        + ck.counters.get("transparency_requests", 0) + ck.counters.get("register_level_ops_judged", 0),
         "distinct_nontrivial": nontrivial,
         "rule": "case = one encode request (stub operator or scheduler-produced) or one request of a sequence against the compression cache; "
                 "non-trivial when it has >= 2 depth slices or runs on 2 cores or is answered from the cache; distinct by (case index, depth offsets, accelerator)",
@@ -1227,13 +1513,18 @@ def main():
         "disagreements": {"bias": len(bias_dis), "prep": len(prep_dis), "encode": len(enc_dis), "addr": len(addr_dis)},
         "cache_sequences": n_worlds,
         "networks_compiled": ck.counters.get("compile_ok", 0),
+        "cache_transparency_answers_judged": ck.counters.get("transparency_requests", 0),
+        "register_level_operations_judged": ck.counters.get("register_level_ops_judged", 0),
+        "shared_constants_networks": ck.counters.get("shared_consts_nets", 0),
         "exhaustive": False,
         "unreached_branches": ([] if ck.counters.get("outcome_err:index") else
                                ["Err.index (scale list shorter than bias list: _prepare_scale_and_bias always repeats or matches)"])
-        + ["model createWeights with a stand-alone scale tensor (scaleTensor = some ..): the real path is exercised through compiled "
-           "networks and judged by the Spec only"],
+        + ([] if ck.counters.get("emitted_ops_standalone_scales") else
+           ["model createWeights with a stand-alone scale tensor (scaleTensor = some ..): no compiled network produced one"]),
         "trusted_base_extra": ["scaling.quantise_scale / reduced_quantise_scale (property C09) supply the candidate (multiplier, shift) pairs",
-                               "mlw_codec.decode (property C07) turns weight sections back into integers"],
+                               "mlw_codec.decode (property C07) turns weight sections back into integers",
+                               "NumPy float32/double arithmetic evaluates the two scale quotients handed to the Lean quantiser (wl_prepq)",
+                               "harness/fbwalk.py reads the command stream and the constants tensor out of the output file"],
     }, assumptions=[
         "hardware contract: a depth slice is split over the cores by the channel's index within the slice modulo the core count; each core reads "
         "10-byte records then a 16-byte aligned weight stream from its own 16-byte aligned address",
